@@ -451,6 +451,7 @@ func runC17(c *Cfg) {
 		for _, cc := range []int{0, 1, 3} {
 			for v := 0; v < 4; v++ {
 				lb = append(lb, &BigBatchCase{Family: "batch-per-item-outcomes", N: n, C: cc, ExecR: v&1 != 0, Builder: v&2 != 0, FailEvery: 11, FailAs: "error", ErrItemEvery: 5})
+				lb = append(lb, &BigBatchCase{Family: "batch-per-item-outcomes", N: n, C: cc, ExecR: v&1 != 0, PrepAny: v&2 != 0, Builder: true, FailEvery: []int{0, 3}[v%2], FailAs: []string{"error", "error-result"}[v/2%2], PostAppends: true}) // what post does with its item list never touches the results
 				lb = append(lb, &BigBatchCase{Family: "batch-per-item-outcomes", N: n, C: cc, ExecR: true, Builder: v&2 != 0, FailEvery: 4, FailAs: "error-then-error-result", Retries: 2 + v%2}) // an error Result handed back on a retry is the item's outcome as it is
 			}
 		}
@@ -599,6 +600,8 @@ type BigBatchCase struct {
 	Stop      bool   `json:"stop,omitempty"`      // stop-on-error mode (sequential cases only: what was executed before the failure keeps its outcome)
 	NilEvery  int    `json:"nil_every,omitempty"` // > 0: items i with i%NilEvery == 1 succeed with a nil value
 	ErrItemEvery int `json:"err_item_every,omitempty"` // > 0: items i with i%ErrItemEvery == 4 arrive from prep as error Results: still items — exec is called for them and its outcome is their result
+	PrepAny     bool `json:"prep_any,omitempty"`     // prep through the constructor option (WithPrepFuncAny), returning a plain list instead of []Result
+	PostAppends bool `json:"post_appends,omitempty"` // post appends to the item list it was handed before it reads the results
 	Retries   int    `json:"retries,omitempty"`   // > 0: per-item retry budget; FailAs "error-then-error-result": a failing item's first attempt returns (_, err), its later attempts (NewErrorResult(err), nil)
 	CancelAt  int    `json:"cancel_at,omitempty"` // > 0: the context is cancelled inside the exec of this item (sequential cases only)
 }
@@ -700,6 +703,29 @@ func runBigBatchCase(cs *BigBatchCase) (fs []finding) {
 		}
 		bn = flyt.NewBatchNode(opts...).WithPrepFunc(prepB)
 	}
+	if cs.PrepAny { // the prep function through the constructor option, handing over a plain []any / []int
+		prepAny := flyt.WithPrepFuncAny(func(ctx context.Context, s *flyt.SharedStore) (any, error) {
+			if cs.N%2 == 0 {
+				l := make([]int, cs.N)
+				for i := range l {
+					l[i] = i
+				}
+				return l, nil
+			}
+			l := make([]any, cs.N)
+			for i := range l {
+				l[i] = i
+			}
+			return l, nil
+		})
+		opts := []any{flyt.WithBatchConcurrency(cs.C), prepAny}
+		if cs.ExecR {
+			opts = append(opts, flyt.WithExecFunc(execRes))
+		} else {
+			opts = append(opts, flyt.WithExecFuncAny(execAny))
+		}
+		bn = flyt.NewBatchNode(opts...)
+	}
 	if cs.Stop {
 		bn = bn.WithBatchErrorHandling(false)
 	}
@@ -710,6 +736,11 @@ func runBigBatchCase(cs *BigBatchCase) (fs []finding) {
 	posts := 0
 	bn = bn.WithPostFunc(func(ctx context.Context, s *flyt.SharedStore, items, results []flyt.Result) (flyt.Action, error) {
 		posts++
+		if cs.PostAppends {
+			// post extends the item list it was handed (a slice of its own as far as it can tell) before it looks at the results
+			items = append(items, flyt.NewResult("appended by post"), flyt.NewResult("and another"))
+			_ = items
+		}
 		slots = results
 		return "next", nil
 	})
